@@ -2,6 +2,7 @@
 import re
 from lib.facts import norm, callee_matches, callee_name
 from lib import tables
+from lib.tables import order_edges
 from lib.rules import arg_desc, who_calls, agg_sites
 from lib.tables import enumerate_paths, describe
 
@@ -258,13 +259,20 @@ def rule_decoder_domain(ctx):
             if nm in unknown:
                 # judged on the inlined body (second run); a helper that cannot be inlined stays reported
                 ctx.bad('K7', 'shape/unknown-helper:%s' % nm, 'the decoder of %s calls %s, a function the rule tables do not know' % (ty, nm), loc=s.loc())
-        for p in enumerate_paths(b, ctx.facts, max_visits=2):
+        paths = [p for p in enumerate_paths(b, ctx.facts, max_visits=2) if p.kind == 'return']
+        # a range test is to blame for an error only if it alone decides it: every path on which it holds ends in an
+        # error built in place (a sentinel test `!= MIN` also lies on the path of a later, unrelated failure)
+        verdicts = {}
+        for p in paths:
             o = p.outcome or ''
-            if p.kind != 'return' or not o.startswith('Result::Err('):
-                continue
             for v, labs in p.cond_map().items():
                 base = tables.strip_suffix(v)
                 if base.startswith('cmp(') and 'parse(' in base and re.search(r'const\(-?\d+\)', base):
+                    verdicts.setdefault((base, frozenset(labs)), []).append(o)
+        for (base, labs), outs in sorted(verdicts.items(), key=str):
+            if all(o.startswith('Result::Err(') for o in outs):
+                o = outs[0]
+                if True:
                     ctx.bad('K7', 'decoder-rejects-writable-value:%s' % ty,
                             'the decoder of %s returns an error (%s) depending on `%s` %s: the encoder writes every value of the type, so a '
                             'record holding such a value is written but cannot be read back' % (ty, o[:80], base[:120], sorted(labs)),
@@ -301,6 +309,23 @@ def rule_primitives(ctx):
                           'the map reader consumes exactly the decoded number of pairs (%s)' % d[:80],
                           'the map reader iterates `0..%s`: the loop bound is not the decoded item count (e.g. clamped together with the '
                           'allocation hint), so a large map reads back truncated and leaves unread bytes' % d[:120], loc=site.loc())
+        if not ok:
+            # a counting loop: `let mut remaining = len; while remaining > 0 { ..insert..; remaining -= 1 }`
+            for l, nm in sorted(b._names.items()):
+                defs = [(site, st) for site, st in b.stmts() if st['s'] == 'assign' and st['lhs'] == [l]]
+                if len(defs) < 2:
+                    continue
+                ds = [describe(b.origin_of_stmt(site)) for site, _st in defs]
+                init = [d for d in ds if 'parse' in d.lower() and 'Sub' not in d]
+                step = [d for d in ds if re.match(r'^(Sub|SubWithOverflow|call:<impl u\w+>::(checked|saturating|wrapping)_sub)\(.*const\(1\)\)', d)]
+                tested = any(re.match(r'^cmp\((var:%s|const\(0\)),(var:%s|const\(0\))\)$' % (nm, nm), describe(b.switch_edges(sbb)[0]) if False else (order_edges(*b.switch_edges(sbb)) or ('',))[0])
+                             for sbb in b.switches())
+                if init and step and len(init) + len(step) == len(ds) and tested:
+                    ok = 'cmp::min' not in init[0] and 'cmp::max' not in init[0]
+                    ctx.check(ok, 'K7', 'HashMap::parse:loop-bound=decoded-count',
+                              'the map reader counts down from the decoded number of pairs (%s)' % init[0][:80],
+                              'the map reader counts down from `%s`, which is not the decoded item count' % init[0][:120])
+                    break
         ctx.check(ok, 'K7', 'HashMap::parse:loop', 'item loop found', 'item loop of the map reader not recognised')
     else:
         ctx.bad('K7', 'anchor:HashMap::parse', 'map reader not found')
